@@ -402,11 +402,14 @@ def run(rep, ctx):
     rep.rule("R16.5", "scaled/cartesian conversion used for the vacancy offsets follows the row-vector convention and wraps only periodic components (shared with C20)")
     with rep.guard("R16.5"):
         from . import shared as _sh
-        _sh.frames(rep, ctx.model, "R16.5")
+        from ..report import Filtered
+        # the vacancy offset is floor(to_scaled(cell, position, wrap=False)): only the convention of the conversion matters here, not its wrapping
+        conv_only = Filtered(rep, lambda construct: construct.startswith(("to_scaled =", "to_cartesian =", "to_scaled product", "to_cartesian product")))
+        _sh.frames(conv_only, ctx.model, "R16.5")
     rep.rule("R16.6", "no function keeps results in module-level state or functools caches (answers do not depend on what the process analysed before)")
     with rep.guard("R16.6"):
         from .. import symrules as _SRms
-        _SRms.module_state(rep, ctx.model, "R16.6")
+        _SRms.module_state(rep, ctx.model, "R16.6", _SRms.GEOMETRY_SIDE)
     rep.floor("R16.1", 5)
     rep.floor("R16.2", 2)
     rep.floor("R16.3", 7)
